@@ -247,11 +247,22 @@ func (c *tunnelChannel) Close() {
 	c.close(nil)
 }
 
-func (c *tunnelChannel) Invoke(ctx context.Context, methodName string, req, resp interface{}, opts ...grpc.CallOption) error {
+func (c *tunnelChannel) Invoke(ctx context.Context, methodName string, req, resp interface{}, opts ...grpc.CallOption) (retErr error) {
 	str, err := c.newStream(ctx, false, false, methodName, opts...)
 	if err != nil {
 		return err
 	}
+	defer func() {
+		if retErr != nil {
+			// Make sure the RPC is finished before returning an error, and
+			// wait for whichever goroutine is finishing it: the receive loop
+			// writes the grpc.Header and grpc.Trailer call-option targets
+			// until the stream is done, and the caller is free to read them
+			// as soon as this call has returned.
+			str.cancelStream(retErr)
+			<-str.doneSignal
+		}
+	}()
 	if err := str.SendMsg(req); err != nil {
 		return err
 	}
